@@ -235,7 +235,7 @@ func VerifC13Consumer() {
 			}
 			mt = c13Lower(strings.TrimSpace(mt))
 			zv.Assert("never-a-different-consumer", zv.Or(c.id == "*/*", zv.StrEq(c.id, mt)))
-			if c.id == "*/*" {
+			if c.id == "*/*" && mt != "*/*" { // (a response typed "*/*" itself is served by the consumer registered under that very name)
 				_, has := cons[mt]
 				zv.Assert("catch-all-only-when-the-type-is-unregistered", !has)
 			}
